@@ -66,7 +66,12 @@ class FileSystemLoader(BaseLoader):
 
         for path in self.search_path:
             source_path = path.joinpath(template_path)
-            if not source_path.is_file():
+            try:
+                if not source_path.is_file():
+                    continue
+            except OSError:
+                # The file system can't hold or won't show such a path (a name
+                # that is too long, a directory we may not search). Not here.
                 continue
             return source_path
         raise TemplateNotFoundError(template_name)
